@@ -10,6 +10,7 @@ Part D: zuko / flowjax proposal outputs consumed in numpy, torch and jax sample 
 """
 from __future__ import annotations
 
+import inspect
 import itertools
 
 import numpy as np
@@ -103,18 +104,25 @@ def run_grid(case, counters, viol, nontrivial):
                     kw["parameters"] = ["alpha", "beta_"]
                 s = C(**kw)
                 w0 = width_of(s.x)
-                for op in ("to_namespace", "from_samples", "to_numpy"):
+                ops = [("to_namespace", None), ("from_samples", None), ("to_numpy", None)]
+                if mask in ((1, 1, 1, 1), (0, 0, 0, 0), (1, 0, 1, 0)):
+                    # conversions that also request a width: the result must have exactly that width
+                    ops += [("to_namespace", "float32"), ("to_namespace", "float64"), ("from_samples", "float32"), ("from_samples", "float64"), ("to_numpy", "float32")]
+                for op, req in ops:
                     if op == "to_numpy" and b != "numpy":
                         continue
-                    cell = f"{case['cls']}|{a}->{b}|{dts}|{mask}|{op}"
+                    if op == "to_numpy" and req is not None and "dtype" not in inspect.signature(C.to_numpy).parameters:
+                        continue  # this class's to_numpy takes no dtype argument
+                    cell = f"{case['cls']}|{a}->{b}|{dts}|{mask}|{op}|req={req}"
                     counters["grid_cells_judged"] += 1
+                    w_expect = w0 if req is None else int(req[-2:])
                     try:
                         if op == "to_namespace":
-                            r = s.to_namespace(xb)
+                            r = s.to_namespace(xb) if req is None else s.to_namespace(xb, dtype=req)
                         elif op == "from_samples":
-                            r = C.from_samples(s, xp=xb)
+                            r = C.from_samples(s, xp=xb) if req is None else C.from_samples(s, xp=xb, dtype=req)
                         else:
-                            r = s.to_numpy()
+                            r = s.to_numpy() if req is None else s.to_numpy(dtype=req)
                     except Exception as exc:  # noqa: BLE001
                         viol.append({"mech": f"C15/{op}-raises", "detail": f"{cell}: {type(exc).__name__}: {str(exc)[:160]}"})
                         continue
@@ -128,14 +136,17 @@ def run_grid(case, counters, viol, nontrivial):
                         elif src is not None:
                             if ns_name_of_array(dst) != b:
                                 bad.append(f"{name} is a {type(dst).__name__}")
-                            if not np.array_equal(_vals(src), _vals(dst)):
+                            if w_expect >= w0:
+                                if not np.array_equal(_vals(src), _vals(dst)):
+                                    bad.append(f"{name} values changed")
+                            elif not np.allclose(_vals(src), _vals(dst), rtol=1e-6, atol=1e-6):
                                 bad.append(f"{name} values changed")
-                            if width_of(dst) != w0:
-                                bad.append(f"{name} width {w0}->{width_of(dst)}")
+                            if width_of(dst) != w_expect:
+                                bad.append(f"{name} width {w0}->{width_of(dst)} (expected {w_expect})")
                     if list(r.parameters) != list(s.parameters):
                         bad.append("parameter names changed")
                     if case["cls"] == "Samples" and all(mask[:3]):
-                        if not np.allclose(_vals(r.log_w), _vals(s.log_w), rtol=1e-6):
+                        if not np.allclose(_vals(r.log_w), _vals(s.log_w), rtol=1e-5, atol=1e-5):
                             bad.append("log_w changed")
                         if not np.isclose(float(to_np(r.log_evidence)), float(to_np(s.log_evidence)), rtol=1e-5, atol=1e-6):
                             bad.append("log_evidence changed")
@@ -307,6 +318,10 @@ def run_realflow(case, counters, viol, nontrivial):
             s = Samples(x, log_q=lq, xp=xb)
             lq2 = a.flow.log_prob(s.x)
             s2 = Samples(x, log_q=lq2, xp=xb)
+            for want in (32, 64):
+                s3 = Samples(x, log_q=lq, xp=xb, dtype=f"float{want}")
+                if width_of(s3.x) != want or width_of(s3.log_q) != want:
+                    viol.append({"mech": "C15/flow-output-placed-at-wrong-width", "detail": f"{where} -> Samples(xp={b}, dtype=float{want}): x width {width_of(s3.x)}, log_q width {width_of(s3.log_q)}"})
             if not np.allclose(_vals(s.log_q), _vals(s2.log_q), rtol=2e-4, atol=2e-4):
                 viol.append({"mech": "C15/flow-output-values-changed", "detail": f"{where} -> {b}: log_q from draw and log_prob differ after placement"})
         except Exception as exc:  # noqa: BLE001
